@@ -1,16 +1,26 @@
 #!/usr/bin/env python3
-"""seed_finalize.py <ID> <tag> <check verdict text> [demo verdict text] — merges the lead's own verification into seeded/<ID>-<tag>/meta.json"""
-import json, sys, os
-pid, tag, verdict = sys.argv[1], sys.argv[2], sys.argv[3]
+"""seed_finalize.py <ID> <tag> [note] — merges the lead's own verification (seeded/<ID>-<tag>/verify.log written by seed_run.sh) into meta.json,
+removes the scratch worktree. Prints DETECTED / MISSED."""
+import json, sys, os, re, subprocess
+pid, tag = sys.argv[1], sys.argv[2]
+note = sys.argv[3] if len(sys.argv) > 3 else ""
 d = "/verif/seeded/%s-%s" % (pid, tag)
+log = open(os.path.join(d, "verify.log")).read()
 mp = os.path.join(d, "meta.json")
 try: m = json.load(open(mp))
-except Exception: m = {"property": pid}
+except Exception: m = {}
 m["property"] = pid
-m["lead_verification"] = {
-  "suite_on_changed_tree": open(os.path.join(d, "verify.log")).read().strip().splitlines()[-4:] if os.path.exists(os.path.join(d, "verify.log")) else "not run",
-  "demo": sys.argv[4] if len(sys.argv) > 4 else "",
-  "verif_check": verdict,
-}
+suite = re.findall(r"(\d+% tests passed, \d+ tests failed out of \d+)", log)
+demo = re.findall(r"(demo with(?:out)? change: exit \d+ : .*)", log)
+viol = re.findall(r"violation ([^:\s]+(?::[^\s:]+)*):? ", log)
+chk = re.findall(r"check exit: (\d+)", log)
+summ = re.findall(r"(C\d\d tier=quick .*)", log)
+m["lead_verification"] = {"suite_on_changed_tree": suite[-1] if suite else "NOT RUN", "demo": demo, "verif_check_cmd": "VERIF_REPO=/tmp/seed-%s-%s ./check %s --tier quick" % (pid, tag, pid),
+   "verif_check_exit": int(chk[-1]) if chk else None, "violation_signatures": sorted(set(viol))[:12], "summary": summ[-1] if summ else "", "note": note}
 json.dump(m, open(mp, "w"), indent=1)
-print("ok", mp)
+det = bool(chk) and chk[-1] == "1"
+print(pid, tag, "DETECTED" if det else "MISSED", sorted(set(viol))[:4], suite[-1:] , [x[:60] for x in demo])
+wt = "/tmp/seed-%s-%s" % (pid, tag)
+if "--keep" not in sys.argv and os.path.isdir(wt):
+    subprocess.call(["git", "-C", "/repo", "worktree", "remove", "--force", wt])
+    subprocess.call(["rm", "-f", "/tmp/seedprompt-%s-%s.txt" % (pid, tag)])
